@@ -101,7 +101,10 @@ class C11(Check):
             spec['fields'] = [dict(fd, y=float(ps0.t_obj) * math.tan(math.radians(fd['y']))) for fd in spec['fields']]
         o = build(spec)
         ps = GL.parax_sys(spec)
-        w = spec['wls'][spec['prim']]
+        # any wavelength of the lens (the working F-number stays that of the primary wavelength, as the library defines it)
+        w = spec['wls'][(case['fld'] // 2) % len(spec['wls'])] if not case['ideal'] else spec['wls'][spec['prim']]
+        if w != spec['wls'][spec['prim']]:
+            out.cls('non_primary_wavelength')
         ya, ua = ps.marginal(spec['ap']['type'], spec['ap']['value'])
         if not math.isfinite(ua[-1]) or abs(ua[-1]) < 1e-3:
             out.cls('slow_or_afocal')
